@@ -1,0 +1,37 @@
+//go:build verif
+
+package ocsp
+
+import (
+	"crypto"
+
+	"github.com/zmap/zcrypto/x509"
+)
+
+// Verification hooks (add-only) for the OCSP copy of the signature-algorithm table.
+
+// VerifC03Detail is one row of signatureAlgorithmDetails.
+type VerifC03Detail struct {
+	Algo       int
+	OID        []int
+	PubKeyAlgo int
+	Hash       int
+}
+
+// VerifC03Details returns signatureAlgorithmDetails in table order.
+func VerifC03Details() []VerifC03Detail {
+	var out []VerifC03Detail
+	for _, d := range signatureAlgorithmDetails {
+		out = append(out, VerifC03Detail{Algo: int(d.algo), OID: append([]int{}, d.oid...), PubKeyAlgo: int(d.pubKeyAlgo), Hash: int(d.hash)})
+	}
+	return out
+}
+
+// VerifC03SigningParams is signingParamsForPublicKey.
+func VerifC03SigningParams(pub interface{}, requested x509.SignatureAlgorithm) (hash crypto.Hash, oid []int, params []byte, err error) {
+	h, ai, err := signingParamsForPublicKey(pub, requested)
+	if err != nil {
+		return 0, nil, nil, err
+	}
+	return h, append([]int{}, ai.Algorithm...), append([]byte{}, ai.Parameters.FullBytes...), nil
+}
